@@ -8,8 +8,10 @@
    validated by TLC against EFCore (Trace_Update): re-running the *observed* chain on the model must
    leave nothing stale, the before/after totals bookkeeping must be right.
 """
+import itertools
 import json
 import os
+import random
 
 from .. import efx, gen, history, tlc, tracecheck
 from ..common import work_dir, cleanup, MachineryError, seed_from_env
@@ -69,6 +71,112 @@ def record_histories(ns, seeds, n_edits, out, kinds=None):
     return events, shapes, actions, raised
 
 
+# ---------------------------------------------------------------------------
+# spec -> code: the topologies TLC explores, built as real systems, and every edit the model distinguishes executed on them
+
+def emitted_topologies(wd, max_list=1):
+    """the initial states of MC_Update (one per symmetry class), printed by TLC (MC_Update_Emit)"""
+    cfg = mc_cfg(max_list, False, invariant="FreshAfterCreation", flags={"CheckUpdates": "FALSE"})
+    cfg = cfg.replace("SPECIFICATION Spec", "SPECIFICATION EmitSpec")
+    res = tlc.run_tlc(wd, "MC_Update_Emit", cfg, workers=1, timeout=1800)
+    tlc.require_clean(res, "MC_Update_Emit")
+    topos = []
+    for ln in res.out.splitlines():
+        ln = ln.strip()
+        if ln.startswith('"TOPO|'):
+            topos.append(json.loads(json.loads(ln)[5:]))
+    if not topos:
+        raise MachineryError("MC_Update_Emit printed no topology")
+    return topos, res
+
+
+def model_of_topology(T):
+    m = {}
+    for v, sto in T["storage"].items():
+        m[sto] = efx.new_obj("Storage")
+        m[v] = efx.new_obj("Server", storage=sto)
+    for j, v in T["server"].items():
+        m[j] = efx.new_obj("Job", server=v)
+    for s, jobs in T["jobsOf"].items():
+        m[s] = efx.new_obj("UsageJourneyStep", jobs=list(jobs))
+    for uj, steps in T["stepsOf"].items():
+        m[uj] = efx.new_obj("UsageJourney", uj_steps=list(steps))
+    for n in sorted(set(T["net"].values()) | {"n1", "n2"}):
+        m[n] = efx.new_obj("Network")
+    for c in sorted(set(T["country"].values())):
+        m[c] = efx.new_obj("Country")
+    for d in sorted({x for l in T["devs"].values() for x in l}):
+        m[d] = efx.new_obj("Device")
+    for k, up in enumerate(sorted(T["uj"])):
+        m[up] = efx.new_obj("UsagePattern", usage_journey=T["uj"][up], network=T["net"][up], country=T["country"][up],
+                            devices=list(T["devs"][up]), starts=[2, 1, 3, 4][: 3 + k],
+                            start="2025-01-01T0%d:00:00" % (3 * k))
+    m["sys"] = efx.new_obj("System", usage_patterns=list(T["sysups"]))
+    return m
+
+
+def edits_of_topology(model, rng, n_inputs, max_list=1):
+    """every link change and every list change of the model's universe (StructChanges of MC_Update) + n_inputs input changes
+    (all of them when n_inputs is None)"""
+    by = lambda c: sorted(efx.names_of(model, c))
+    edits = []
+    for up in by("UsagePattern"):
+        for attr, cls in (("usage_journey", "UsageJourney"), ("network", "Network"), ("country", "Country")):
+            edits += [("link", up, attr, x) for x in by(cls) if x != model[up]["lnk"][attr]]
+    for j in by("Job"):
+        edits += [("link", j, "server", x) for x in by("Server") if x != model[j]["lnk"]["server"]]
+
+    def seqs(pool):
+        out = [[]]
+        for k in range(1, max_list + 1):
+            out += [list(p) for p in itertools.product(pool, repeat=k)]
+        return out
+    for uj in by("UsageJourney"):
+        edits += [("list", uj, "uj_steps", s) for s in seqs(by("UsageJourneyStep")) if s != model[uj]["lst"]["uj_steps"]]
+    for s in by("UsageJourneyStep"):
+        edits += [("list", s, "jobs", x) for x in seqs(by("Job")) if x != model[s]["lst"]["jobs"]]
+    inputs = []
+    for n in sorted(model):
+        for a, mv in model[n]["inp"].items():
+            inputs.append(("input", n, a, [mv[0] * 2 + (1 if mv[0] == 0 else 0), mv[1]]))
+    for up in by("UsagePattern"):
+        inputs.append(("opt", up, "starts", [[x + 1 for x in model[up]["opt"]["starts"]], model[up]["opt"]["start"]]))
+    for c in by("Country"):
+        inputs.append(("opt", c, "tz", "Asia/Kolkata"))
+    for v in by("Server"):
+        inputs.append(("opt", v, "server_type", "serverless"))
+    if n_inputs is not None:
+        inputs = rng.sample(inputs, min(n_inputs, len(inputs)))
+    return edits + inputs
+
+
+def replay_model_domain(ns, wd, out, tier, tid0):
+    rng = random.Random(seed_from_env() + 4242)
+    topos, res = emitted_topologies(wd)
+    out.add_tlc(res, "MC_Update_Emit: the model's initial topologies, printed for replay on real systems")
+    chosen = topos if tier == "thorough" else rng.sample(topos, 6)
+    events, tid = [], tid0
+    log = efx.EventLog(ns)
+    n_edits = 0
+    for T in chosen:
+        model = model_of_topology(T)
+        for edit in edits_of_topology(model, rng, None if tier == "thorough" else 4):
+            tid += 1
+            try:
+                h = history.LiveHistory(ns, log, tid, model)
+            except Exception as ex:   # noqa
+                raise MachineryError(f"a topology of the model cannot be built: {ex!r}")
+            ev = h.do(edit, via_update=bool(n_edits % 2))
+            n_edits += 1
+            for e in h.events:
+                if e["ev"] in ("Create", "Update"):
+                    events.append(dict(e, seed=-1))
+            if ev["ev"] == "Update":
+                out.nontrivial.add(("domain", json.dumps(T, sort_keys=True), json.dumps(edit)))
+    log.close()
+    return events, tid, len(chosen), len(topos), n_edits
+
+
 def judge(out, events, fails):
     by_key = {(e["tid"], e["seq"]): e for e in events}
     for tid, seq, clause, data in fails:
@@ -101,8 +209,10 @@ def run(tier, out):
         run_model_check(out, wd, tier)
         ns = efx.load()
         base = seed_from_env() * 100000
-        n_hist, n_edits = (30, 12) if tier == "quick" else (400, 30)
+        n_hist, n_edits = (24, 12) if tier == "quick" else (400, 30)
         events, shapes, actions, raised = record_histories(ns, range(base, base + n_hist), n_edits, out)
+        dom_events, _tid, n_topo, n_all, n_dom = replay_model_domain(ns, wd, out, tier, 10 ** 6)
+        events += dom_events
         trace = os.path.join(wd, "c01.ndjson")
         tracecheck.write_trace(trace, events)
         fails, notes, res = tracecheck.validate(wd, "Trace_Update", trace,
@@ -130,6 +240,7 @@ def run(tier, out):
             "rule": "a case = one accepted edit of a live random system (<=3 objects per class, all sharing "
                     "patterns), compared with a rebuild and validated by TLC; distinct = (seed, position)",
             "histories": n_hist, "edits_validated": out.evaluations, "sharing_shapes_seen": sorted(shapes),
+            "model_topologies_replayed_on_real_systems": f"{n_topo} of {n_all}", "edits_executed_on_them": n_dom,
             "edit_kinds_seen": actions, "edits_that_raised": raised[:20], "n_edits_that_raised": len(raised),
             "spec_code_divergence_notes": note_kinds})
         for ev in events[:40]:
